@@ -31,7 +31,7 @@ type Case struct {
 	Uses         []string
 	Thunks       []bool // function i takes no parameter; the counter lives in an atom
 	AfterStepper []int  `json:",omitempty"` // commands a debugger stepper answered in a session that ended BEFORE the loop runs
-	Long         bool   // also run 10^6 iterations in a child process under a small maximum stack
+	Long         bool   // also run longIterations iterations in a child process under a small maximum stack
 }
 
 type ctxGen struct {
@@ -104,7 +104,7 @@ func genCase(t *rapid.T) Case {
 			c.AfterStepper = append(c.AfterStepper, g.pick("cmd", 4))
 		}
 	}
-	c.Long = os.Getenv("VERIF_TIER") == "thorough" && g.pick("long", 60) == 0
+	c.Long = os.Getenv("VERIF_TIER") == "thorough" && gen.Chance(g.t, "long", 40)
 	return c
 }
 
@@ -248,9 +248,10 @@ func blame(c Case) string {
 	return strings.Join(us, ",")
 }
 
-// longIterations: enough to exhaust a 16 MiB stack many times over if even one frame leaked per
-// iteration (a lisp-level call costs well over 1 KiB of host stack)
-const longIterations = 300000
+// longIterations: enough to exhaust a 16 MiB stack if even one frame leaked per iteration (335 bytes
+// per iteration suffice; a lisp-level call costs well over 1 KiB of host stack). One iteration of a
+// deep shape with user macros costs up to 0.5 ms, so that more iterations only end in the time budget.
+const longIterations = 50000
 
 func runLong(c Case) string {
 	b, _ := json.Marshal(c)
